@@ -15,7 +15,7 @@ CHECKS = {
             "stage A (regex tokenisers, load_from_json) is outside the claim; the regex engine itself is a contract model in the line-splitting part; execute_text is a nondeterministic stub inside the loop harness; token lists are bounded in length and alphabet",
             "solver-based: CBMC bounded model checking + z3 over MIR-derived path conditions"),
     "C02": ("K+M", "model_checking",
-            "the REAL token glue, parser ladder and interpreter, translated from MIR, on every well-formed token list of length <= 6, every token list of length <= 4 and a seeded sample of lengths 7-8 (quick) / every token list of length <= 8 (thorough) over {number, + - * / ( )}: parentheses nested 9 / 17 / 33 / 40 deep (quick; every depth 1..48, 64, 100 thorough) around x + y times z evaluate to (x + y) z; every well-formed expression evaluates to the value given by precedence, left associativity, parentheses, sign prefixes, juxtaposition = '+' and x/0 = 0 for ALL real operand values (shapes enumerated exhaustively, values symbolic, z3); plus NumberItem::calculate on all f64 pairs (CBMC)",
+            "the REAL token glue, parser ladder and interpreter, translated from MIR, on every well-formed token list of length <= 6, every token list of length <= 4 and a seeded sample of lengths 7-8 (quick) / every token list of length <= 8 (thorough) over {number, + - * / ( )}: parentheses nested 9 / 17 / 33 / 40 deep (quick; every depth 1..48, 64, 100 thorough) around x + y times z evaluate to (x + y) z; every well-formed expression evaluates to the value given by precedence, left associativity, parentheses, sign prefixes, juxtaposition = '+' and x/0 = 0 for ALL real operand values (shapes enumerated exhaustively, values symbolic, z3); plus NumberItem::calculate on all f64 pairs (CBMC); a text round trip of a result through format!(\"{:.Pe}\") and parse is modelled as rounding to P+1 significant digits, so a result that is 'tidied' that way is found and replayed against the exact double operation; add_token_location never records a span that starts or ends inside a recognised token (a later pattern cannot claim characters of an earlier token)",
             "literal spelling / spacing / k-M-G suffixes are stage A (regex) and outside; f64 rounding of individual operations outside (real relaxation); expression length bounded",
             "solver-based: z3 over SMT generated from the MIR of the real parser/interpreter + CBMC"),
     "C03": ("M", "translation_validation",
@@ -23,7 +23,7 @@ CHECKS = {
             "names are Text tokens (case folding and literal spelling are stage A); values are numbers; program length and name pool bounded",
             "solver-based: z3 over SMT generated from the MIR, program shapes enumerated exhaustively"),
     "C04": ("K+M", "model_checking",
-            "session re-use: set_text puts the cursor back and stores exactly the lines of the new text, one part per line for every LF/CRLF separator pattern of <= 4 lines (z3/path enumeration over its MIR); from that state execute_session returns exactly line_count slots for every n <= 4 and every per-line outcome (CBMC); calculator immutability: neither applying nor declining a rule writes into the calculator's own pattern tokens (rule_tokinizer from MIR, rule decision symbolic); a re-used session keeps its variables: every straight-line program of <= 3 lines with a failing line (also a failing re-assignment) leaves all bindings as they were; converting a quantity writes nothing into the unit descriptions the configuration owns (calculate_unit from MIR with the program evaluation stubbed), so a later conversion cannot depend on an earlier one; execute() builds a fresh session",
+            "session re-use: set_text puts the cursor back and stores exactly the lines of the new text, one part per line for every LF/CRLF separator pattern of <= 4 lines (z3/path enumeration over its MIR); from that state execute_session returns exactly line_count slots for every n <= 4 and every per-line outcome (CBMC); calculator immutability: neither applying nor declining a rule writes into the calculator's own pattern tokens (rule_tokinizer from MIR, rule decision symbolic); a re-used session keeps its variables: every straight-line program of <= 3 lines with a failing line (also a failing re-assignment) leaves all bindings as they were; converting a quantity writes nothing into the unit descriptions the configuration owns (calculate_unit from MIR with the program evaluation stubbed), so a later conversion cannot depend on an earlier one; Session::set_language writes the language and nothing else (the variables of a re-used session survive it); execute() builds a fresh session",
             "Regex::split is a contract model for the constant line-separator pattern; immutability is decided for the rule-rewriting stage (the only stage that holds references into the configuration's token objects) with one API rule",
             "solver-based: MIR symbolic execution + CBMC"),
     "C05": ("M+K", "translation_validation",
@@ -35,19 +35,19 @@ CHECKS = {
             "rate table lookups are uninterpreted functions of the currency; literal spellings are outside; f64 rounding outside",
             "solver-based: z3 over SMT generated from the MIR of the real functions"),
     "C18": ("M", "translation_validation",
-            "registration bookkeeping: every sequence of <= 4 (quick) / 5 (thorough) calls of add_rule / delete_rule / add_dynamic_type / add_dynamic_type_item with three rule objects whose names are symbolic strings, two languages (one unknown), one family, two indices: return values and resulting rule order / family tables equal a reference list model (add fails only for an unknown language, delete removes the first rule of that name, duplicates rejected without change); API-rule effect: a match calls the rule with fields bound by name and replaces exactly the matched span, a declining rule leaves the line unchanged; a rule with two patterns that declines the match of its first pattern still gets the match of its second; a user-defined unit is recognised in a line (dynamic_type_tokinizer) for a number literal and equally for a variable holding the number, without writing into the unit descriptions",
+            "registration bookkeeping: every sequence of <= 4 (quick) / 5 (thorough) calls of add_rule / delete_rule / add_dynamic_type / add_dynamic_type_item with three rule objects whose names are symbolic strings, two languages (one unknown), one family, two indices: return values and resulting rule order / family tables equal a reference list model (add fails only for an unknown language, delete removes the first rule of that name, duplicates rejected without change); API-rule effect: a match calls the rule with fields bound by name and replaces exactly the matched span, a declining rule leaves the line unchanged; a rule with two patterns that declines the match of its first pattern still gets the match of its second; a line with two places matching one pattern has both rewritten, each from its own fields; a user family of four units converts along its declared chain for every ordered pair (programs opaque, order and value threading claimed), also when the steps do not commute; a user-defined unit is recognised in a line (dynamic_type_tokinizer) for a number literal and equally for a variable holding the number, without writing into the unit descriptions",
             "pattern tokenisation of rule strings (add_rule runs the regex tokeniser on its patterns) and user-family conversion arithmetic are outside: rules are registered with empty pattern lists in the bookkeeping spec and with a hand-built pattern in the effect spec",
             "solver-based: z3 over SMT generated from the MIR, call sequences enumerated exhaustively"),
     "C07": ("M", "translation_validation",
-            "formatter::format_number from MIR with float -> decimal text as a contract model ({:.N} gives the digits of |x| 10^N rounded half-even, {} the shortest exact text): for every real |x| < 10^7, digit counts 0..3 (and 10, 19 for |x| < 1000), both zero-removal settings and symbolic separator strings the output is [-] + the integer digits grouped in threes by the thousands separator + [decimal separator + fraction digits], the fraction omitted exactly when removal is on and every printed fraction digit is 0; the same with every float operation of the code carrying a relative error <= 2^-53 (a second, separately rounded computation cannot decide the digits); no panic for any digit count; print of numbers, percentages, money and unit quantities hands its own value, separators and settings to format_number once and composes '%', currency symbol side/blank and the unit format around it",
+            "formatter::format_number from MIR with float -> decimal text as a contract model ({:.N} gives the digits of |x| 10^N rounded half-even, {} the shortest exact text): for every real |x| < 10^7, digit counts 0..3 (and 10, 19 for |x| < 1000), both zero-removal settings and symbolic separator strings the output is [-] + the integer digits grouped in threes by the thousands separator + [decimal separator + fraction digits], the fraction omitted exactly when removal is on and every printed fraction digit is 0; the same with every float operation of the code carrying a relative error <= 2^-53 (a second, separately rounded computation cannot decide the digits); no panic for any digit count; print of numbers, percentages, money and unit quantities hands its own value, separators and settings to format_number once and composes '%', currency symbol side/blank and the unit format around it; the five configuration setters store exactly their arguments for every argument and every current setting (no order dependence between set_decimal_seperator and set_thousand_separator)",
             "the digit generation of core::fmt (grisu/dragon) is assumed to meet its documentation and is not executed; more than 7 integer digits and, with rounding off, more than 3 fraction digits are outside the bound; values are reals (NaN/inf outside)",
             "solver-based: z3 over SMT generated from the MIR, digit-count shapes enumerated, digits symbolic"),
     "C08": ("M+D", "translation_validation",
-            "reading: the number / percent / money tokenisers' kernel (one regex match as input; the number group a literal WRITTEN in the configured convention - optional sign, 1..3 digit groups joined by the thousands separator, optional decimal separator and 1..3 fraction digits, digits symbolic; str::replace and f64 parsing modelled on the written text) yields the intended number under both conventions the literal regexes admit ('.' decimal with ',' groups, ',' decimal with '.' groups), so a literal rewritten into the other convention denotes the same value under that configuration; computing: no rule function and no calculate kernel reads the separator settings (symbolic execution of all their paths never touches the two configuration fields), unit conversion - the one computation that re-enters the reader - agrees with the unit definitions under both conventions and on a calculator whose separators are switched between evaluations (engine D, native comparison on all 1089 pairs); printing: format_number inserts the separators between digits that do not depend on them (C07, separators symbolic)",
+            "reading: the number / percent / money tokenisers' kernel (one regex match as input; the number group a literal WRITTEN in the configured convention - optional sign, 1..3 digit groups joined by the thousands separator, optional decimal separator and 1..3 fraction digits, digits symbolic; str::replace and f64 parsing modelled on the written text) yields the intended number under both conventions the literal regexes admit ('.' decimal with ',' groups, ',' decimal with '.' groups), so a literal rewritten into the other convention denotes the same value under that configuration; computing: no rule function and no calculate kernel reads the separator settings (symbolic execution of all their paths never touches the two configuration fields), unit conversion - the one computation that re-enters the reader - agrees with the unit definitions under both conventions and on a calculator whose separators are switched between evaluations (engine D, native comparison on all 1089 pairs); printing: format_number inserts the separators between digits that do not depend on them (C07, separators symbolic); configuring: the separator setters store their arguments unconditionally, so every configuration is reachable in either order",
             "the regex engine (which texts are matched) is outside; separators other than '.' and ',' cannot occur in literals the patterns admit; f64 rounding outside (real relaxation)",
             "solver-based: z3 over SMT generated from the MIR with structured literal texts; z3 over config.json's unit programs"),
     "C09": ("K+M", "model_checking",
-            "DateItem::calculate on the real chrono: every date of years 1..9999 +- n days (-30 < n < 30, negative counts included) is exactly n days away; + Y years M months keeps the day and moves the month index by 12Y+M inside the stated region (CBMC); DateItem::print reads every day / month / year it shows from the item's own calendar date for every zone offset (the zone never moves a date to its neighbour); small_date accepts exactly the calendar dates and denotes them (z3 over MIR, Gregorian model validated against chrono by CBMC); 'A to B' on dates is the absolute difference; rule wiring: the property's phrases as token lines through rule_tokinizer with config.json's own rule table (dumped natively per run): each phrase is taken by exactly its rule function with the fields bound by name to the right tokens",
+            "DateItem::calculate on the real chrono: every date of years 1..9999 +- n days (-30 < n < 30, negative counts included) is exactly n days away; + Y years M months keeps the day and moves the month index by 12Y+M inside the stated region (CBMC); DateItem::print reads every day / month / year it shows from the item's own calendar date for every zone offset (the zone never moves a date to its neighbour); DateTimeItem::print reads every calendar and clock field (also the year it compares with the running year to choose the layout) from the instant moved into the item's zone; small_date accepts exactly the calendar dates and denotes them (z3 over MIR, Gregorian model validated against chrono by CBMC); 'A to B' on dates is the absolute difference; rule wiring: the property's phrases as token lines through rule_tokinizer with config.json's own rule table (dumped natively per run): each phrase is taken by exactly its rule function with the fields bound by name to the right tokens",
             "month/year arithmetic of DateItem::calculate outside the stated region (December landings, day > 28, subtraction across a year boundary, day counts >= 30 that are not month multiples) is NOT claimed: it has defects documented in DESIGN.md section 7; date spellings are regex",
             "solver-based: CBMC bounded model checking + z3 over MIR"),
     "C10": ("M", "translation_validation",
@@ -59,16 +59,16 @@ CHECKS = {
             "chrono modelled as (day number, second of day); chrono::Local modelled as one arbitrary fixed offset; the regex engine itself is outside: a match is an input whose groups satisfy what the patterns guarantee; zone table lookup is data",
             "solver-based: z3 over SMT generated from the MIR with validated chrono models"),
     "C12": ("D", "translation_validation",
-            "all 1089 ordered pairs of the 33 configured units: the composed conversion programs equal the standard definitions, different kinds have no path, round trips and transitivity hold (z3 over exact rationals); the walk model is compared with the native crate on all pairs at two amounts under both separator conventions ('.' decimal and the default ',' decimal) on every run; DynamicTypeItem::calculate converts the right operand into the left unit, keeps the unit when scaling, yields a plain number for a ratio (z3 over MIR, conversion uninterpreted); rule wiring: the property's phrases as token lines through rule_tokinizer with config.json's own rule table (dumped natively per run): each phrase is taken by exactly its rule function with the fields bound by name to the right tokens",
+            "all 1089 ordered pairs of the 33 configured units: the composed conversion programs equal the standard definitions, different kinds have no path, round trips and transitivity hold (z3 over exact rationals); the walk model is compared with the native crate on all pairs at four amounts (0, 1, 7.5, 3e19) under both separator conventions ('.' decimal and the default ',' decimal) on every run; calculate_unit runs the declared programs of the units between source and target in chain order, each on the previous result (four-unit chain, all ordered pairs, programs opaque); the text put in place of {value} is the amount itself for every finite amount (native comparison also at 3e19, beyond the 64-bit integers); DynamicTypeItem::calculate converts the right operand into the left unit, keeps the unit when scaling, yields a plain number for a ratio (z3 over MIR, conversion uninterpreted); rule wiring: the property's phrases as token lines through rule_tokinizer with config.json's own rule table (dumped natively per run): each phrase is taken by exactly its rule function with the fields bound by name to the right tokens",
             "f64 rounding along the chain and separator-dependent re-tokenisation (C08) are outside",
             "solver-based: z3 over the linear programs of config.json + native translator validation"),
     "C13": ("M+K", "translation_validation",
-            "NumberItem::print hands the {:#b}/{:#o}/{:#X} formatter exactly N for every integer 0 <= N <= 2^53; number_type_convert rounds half away from zero and sets the named type for all five keywords; NumberItem::calculate keeps the left NumberType (CBMC, all f64); the printed integer is N also when every float operation of the printing code carries a relative error <= 2^-53 (no rounding helper may move an exactly representable integer); 0x / 0o / 0b literals of up to 17 / 22 / 64 symbolic digits denote the integer written, longer ones are skipped without a panic; rule wiring: the property's phrases as token lines through rule_tokinizer with config.json's own rule table (dumped natively per run): each phrase is taken by exactly its rule function with the fields bound by name to the right tokens",
-            "radix literal reading (from_str_radix inside the regex tokeniser) is outside",
+            "NumberItem::print hands the {:#b}/{:#o}/{:#X} formatter exactly N for every integer 0 <= N <= 2^53; number_type_convert rounds half away from zero and sets the named type for all five keywords; NumberItem::calculate keeps the left NumberType (CBMC, all f64); the printed integer is N also when every float operation of the printing code carries a relative error <= 2^-53 (no rounding helper may move an exactly representable integer); 0x / 0o / 0b literals of up to 17 / 22 / 64 symbolic digits denote the integer written, longer ones are skipped without a panic, and every literal the reader accepts prints back as the integer written (reader and NumberItem::print composed on one path); add_token_location refuses a span that starts or ends inside a recognised token, so the decimal pattern cannot swallow the sign glued to a based literal; rule wiring: the property's phrases as token lines through rule_tokinizer with config.json's own rule table (dumped natively per run): each phrase is taken by exactly its rule function with the fields bound by name to the right tokens",
+            "which texts the number patterns match (regex engine, pattern order in config.json) is outside; the radix reader is decided from the match onwards",
             "solver-based: z3 over MIR + CBMC"),
     "C14": ("M", "translation_validation",
-            "from_unixtime / to_unixtime are mutually inverse for all timestamps of years 1..9999, '<date> as unix' is midnight UTC, the Raw print shows every digit of every such timestamp; a date-time (time, date, number, money, duration) held by a variable is read back by the field getters as exactly the stored value and zone, so 'a = N to ZONE', 'a as unix' returns N; the requested GMT+-h:mm zone denotes sign * (60 h + mm) minutes; rule wiring: the property's phrases as token lines through rule_tokinizer with config.json's own rule table (dumped natively per run): each phrase is taken by exactly its rule function with the fields bound by name to the right tokens",
-            "chrono's from_timestamp/timestamp/and_hms are modelled on (day number, second of day); DateTimeItem::print and at_date spellings are outside",
+            "from_unixtime / to_unixtime are mutually inverse for all timestamps of years 1..9999, '<date> as unix' is midnight UTC, the Raw print shows every digit of every such timestamp; a date-time (time, date, number, money, duration) held by a variable is read back by the field getters as exactly the stored value and zone, so 'a = N to ZONE', 'a as unix' returns N; the requested GMT+-h:mm zone denotes sign * (60 h + mm) minutes; DateTimeItem::print reads every calendar and clock field - also the year compared with the running year - from the instant moved into the item's zone; small_date denotes the calendar date written (no two-digit-year expansion); rule wiring: the property's phrases as token lines through rule_tokinizer with config.json's own rule table (dumped natively per run): each phrase is taken by exactly its rule function with the fields bound by name to the right tokens",
+            "chrono's from_timestamp/timestamp/and_hms are modelled on (day number, second of day); month names / format strings of the print and at_date spellings are data and outside",
             "solver-based: z3 over SMT generated from the MIR with chrono models"),
 }
 
